@@ -1425,8 +1425,11 @@ def _make_c_or_py_source(ffi, module_name, preamble, target_file, verbose):
     recompiler.write_source_to_f(f, preamble)
     output = f.getvalue()
     try:
+        # what reading 'output' back in text mode gives (a C source with
+        # CRLF line ends reads back with LF line ends)
+        expected = io.StringIO(output, newline=None).read()
         with open(target_file, 'r') as f1:
-            if f1.read(len(output) + 1) != output:
+            if f1.read(len(output) + 1) != expected:
                 raise OSError
         if verbose:
             print("(already up-to-date)")
